@@ -45,15 +45,20 @@ RULE = (
     "audited against each writer's manifest."
 )
 ASSUMPTIONS = [
-    "partial by nature: the interleaving is controlled at file-system-CALL granularity (audit events); the kernel's "
-    "atomicity of rename/open/unlink, the GIL and SQLite's own locking are the environment (set_many is checked to be "
-    "issued as ONE transaction per add, its atomicity is SQLite's)",
-    "the harness runs as root: the reflink probe's open(final name, O_TRUNC) on a protected (0o444) object succeeds "
-    "and truncates it (modelled: ProbeOpen/ProbeUnlink); for a non-root user the same open fails with EACCES - see "
-    "the separate non-root scenario",
+    "partial by nature: the interleaving is controlled at file-system-CALL granularity (audit events + harness-made "
+    "points at thread start, status phase and each existence check); the kernel's atomicity of rename/open/unlink, "
+    "the GIL and SQLite's own locking are the environment (set_many is checked to be issued as ONE transaction per "
+    "add; its atomicity is SQLite's)",
+    "environment behaviour of dvc_objects, modelled (ProbeOpen/ProbeUnlink) but not oracle-judged: the reflink attempt "
+    "opens the FINAL name with O_CREAT|O_TRUNC and unlinks it; when the harness runs as root this transiently truncates "
+    "and removes an object another writer already completed (and a state row can record the token of that empty "
+    "file - harmless: its size differs from any non-empty complete object); only the final state is judged",
+    "non-root users: the same open fails with EACCES on a protected object; fixed in /repo 5bda9b0 (transfer ignores a "
+    "PermissionError for an id whose destination object is protected); exercised by the forked unprivileged child "
+    "(skipped with a count when the harness itself is not root, since then every scenario is unprivileged)",
     "this file system has no reflink support (the probe always fails and is cleaned up), as on ext4",
-    "tokens (ino, mtime, size) are abstracted to fresh identities in the model; a stale row is harmless because a "
-    "truncated probe file differs in size from any non-empty complete object",
+    "tokens (ino, mtime, size) are abstracted to fresh identities and file contents to injective content ids in the "
+    "model; real bytes are judged by the oracle (hash = name, bytes = manifest)",
     "collision-freeness of md5 on the contents in play (hypothesis [consistent] of the theorems)",
 ]
 
@@ -651,6 +656,7 @@ class Names:
     def __init__(self):
         self.d = {}
         self.order = []
+        self.c = {}
 
     def ref(self, b) -> str:
         if isinstance(b, str):
@@ -659,6 +665,16 @@ class Names:
             self.d[b] = f"x{len(self.d)}"
             self.order.append(b)
         return self.d[b]
+
+    def content(self, b: bytes) -> str:
+        """file contents are abstracted to an injective content id: b"" -> [], the k-th distinct non-empty
+        content -> [k].  The model only ever compares contents for equality (and creates the empty one);
+        the real bytes are judged by the oracle (hash = name, bytes = manifest)."""
+        if b == b"":
+            return "[]"
+        if b not in self.c:
+            self.c[b] = len(self.c) + 1
+        return f"[{self.c[b]}]"
 
     def wrap(self, term: str) -> str:
         out = term
@@ -685,20 +701,21 @@ def step_term(nm: Names, st):
 
 
 def case_term(cls, wkls, steps, objs, rows, leftovers, prepop=None):
-    """(check_in, expected val) as one let-wrapped Coq term"""
+    """(check_in_pre, expected val) as one let-wrapped Coq term"""
     nm = Names()
     wls = []
     for wl in wkls:
         man = manifest(wl)
-        wls.append("[" + "; ".join(f"({nm.ref(o)}, {nm.ref(b)})" for o, b in man.items()) + "]")
+        wls.append("[" + "; ".join(f"({nm.ref(o)}, {nm.content(b)})" for o, b in man.items()) + "]")
+    pre = "[" + "; ".join(f"({nm.ref(o)}, {nm.content(b)})" for o, b in (prepop or {}).items()) + "]"
     tr = "[" + ";\n  ".join(f"({tid}%nat, {step_term(nm, s)})" for tid, s in steps) + "]"
     loc = "true" if cls == "local" else "false"
     store = "; ".join(
-        f"VL [VB {nm.ref(o)}; VB {nm.ref(objs[o][0])}; VN {1 if objs[o][1] == 0o444 else 0}]"
+        f"VL [VB {nm.ref(o)}; VB {nm.content(objs[o][0])}; VN {1 if objs[o][1] == 0o444 else 0}]"
         for o in sorted(objs, key=lambda s: s.encode()))
     rowset = "; ".join(f"VB {nm.ref(o)}" for o in sorted(rows, key=lambda s: s.encode()))
     exp = f"VL [VN 1; VL [{store}]; VL [{rowset}]; VN {len(leftovers)}; VN 1]"
-    return nm.wrap(f"(({loc}, [{'; '.join(wls)}], {tr}), {exp})")
+    return nm.wrap(f"(({loc}, [{'; '.join(wls)}], {pre}, {tr}), {exp})")
 
 
 def coq_check(ctx, name, cases, shard):
@@ -706,9 +723,9 @@ def coq_check(ctx, name, cases, shard):
     if not cases:
         return
     terms = [t for _, t in cases]
-    okfn = "fun c => val_eqb (enc_check_in (fst c)) (snd c)"
+    okfn = "fun c => val_eqb (enc_check_in_pre (fst c)) (snd c)"
     try:
-        total, bad = ctx.coq_eval_failing(name, IMPORTS, "check_in * val", okfn, terms, shard=shard)
+        total, bad = ctx.coq_eval_failing(name, IMPORTS, "check_in_pre * val", okfn, terms, shard=shard)
     except RuntimeError as exc:
         ctx.obligation(f"correspondence:{name}", False, "coq evaluation failed")
         ctx.broken("correspondence", f"correspondence:{name}",
@@ -722,7 +739,7 @@ def coq_check(ctx, name, cases, shard):
         detail = []
         for bi in bad[:2]:
             cj, term = cases[bi]
-            mv = ctx.coq_eval_val(name, IMPORTS, f"enc_check_in (fst {term})")
+            mv = ctx.coq_eval_val(name, IMPORTS, f"enc_check_in_pre (fst {term})")
             detail.append({"case": cj, "model": mv if not isinstance(mv, list) or len(str(mv)) < 4000 else "large"})
         ctx.broken("correspondence", f"correspondence:{name}",
                    f"valid_trace rejects, or the model's final store differs from the audited store, on {len(bad)} of {total} recorded traces",
@@ -772,14 +789,14 @@ def run(ctx):
     t_start = time.time()
     _STATS.clear()
     n_sched = ctx.n(210, 3000)
-    budget = 24 if ctx.tier == "quick" else 330
+    budget = 24 if ctx.tier == "quick" else 300
     cases = []
     seen_sched = set()
     unknown_total = []
     i = 0
     corpus = [
         # the probe race: writer 1 decides "new", writer 0 completes + protects, writer 1's probe truncates it
-        ("local", [{"a": b"shared"}, {"a": b"shared"}], [0] * 0 + [1] * 0 + [0] * 40 + [1] * 40),
+        ("local", [{"a": b"shared"}, {"a": b"shared"}], [1] * 4 + [0] * 40 + [1] * 40),
         ("base", [{"a": b"shared", "b": b""}, {"b": b"", "c": b"shared"}, {"a": b"shared"}], [0, 1, 2] * 60),
         ("local", [{"a": b"", "d/b": b""}, {"x": b""}], [1, 0] * 50),
     ]
@@ -818,7 +835,7 @@ def run(ctx):
                    "the writers issued file-system mutations the step machine does not have",
                    detail=unknown_total[:10])
     # the model: every recorded trace accepted, final store = audited store
-    shard = 18 if ctx.tier == "quick" else 60
+    shard = 20 if ctx.tier == "quick" else 100
     t1 = time.time()
     coq_check(ctx, "traces", [(c, t) for c, t in cases if t is not None], shard)
     t2 = time.time()
@@ -883,10 +900,9 @@ def _register(ctx, out, cases, seen_sched, unknown_total):
         ctx.oracle_fail(sig, what, case)
     unknown_total.extend(unknown)
     term = None
-    if not unknown and "prepop" not in case:
-        term = case_term(case["cls"], wkls, steps, objs, rows, leftovers)
-    elif not unknown:
-        ctx.count("not-in-coq:prepopulated")
+    if not unknown:
+        prepop = {k: bytes.fromhex(v) for k, v in case.get("prepop", {}).items()}
+        term = case_term(case["cls"], wkls, steps, objs, rows, leftovers, prepop)
     cases.append((case, term))
 
 
